@@ -43,6 +43,10 @@ impl Op {
         direction: Direction,
     ) -> usize {
         let forward = direction == Direction::Fwd;
+        #[cfg(feature = "verif")]
+        if crate::verif::tracing() {
+            return crate::verif::traced_apply(self, ctx, operands, forward);
+        }
         // Short form of (inverted && !forward) || (forward && !inverted)
         if self.descriptor.inverted != forward {
             return self.descriptor.fwd.0(self, ctx, operands);
